@@ -141,8 +141,8 @@ def run_exact(ctx, case):
       filt = levinson_durbin(list(r)) if order is None else \
              levinson_durbin(list(r), order)
     except (ZeroDivisionError, OverflowError) as exc:
-      ctx.violation("exactld/raises-%s-though-the-exact-recursion-is-defined"
-                    % type(exc).__name__, case)
+      ctx.violation("exactld/raises-though-the-exact-recursion-is-defined",
+                    case, exc=type(exc).__name__)
       return True
     a, err = read_exact(filt, p)
     mat = [[r_ext[abs(i - j)] for j in range(p + 1)] for i in range(p + 1)]
@@ -162,8 +162,8 @@ def run_exact(ctx, case):
     try:
       filt = lpc.kautocor(list(blk), p)
     except (ZeroDivisionError, OverflowError) as exc:
-      ctx.violation("exactauto/raises-%s-though-the-exact-recursion-is-defined"
-                    % type(exc).__name__, case)
+      ctx.violation("exactauto/raises-though-the-exact-recursion-is-defined",
+                    case, exc=type(exc).__name__)
       return True
     a, err = read_exact(filt, p)
     mat = [[r[abs(i - j)] for j in range(p + 1)] for i in range(p + 1)]
